@@ -72,7 +72,7 @@ type c24Agg struct {
 }
 
 type c24Event struct {
-	kind string // expire | retry | reset | overflow | defer-cutoff | defer-dup | hook-finalized | hook-unbroadcast | hook-slow
+	kind string // expire | retry | reset | overflow | defer-cutoff | defer-dup | hook-finalized | hook-unbroadcast | hook-slow | announce
 	k    int    // aggregator index (retry)
 	mask uint8  // owned (reset) or the deferred proposal's transactions
 }
@@ -208,6 +208,10 @@ func c24NewInst(tier *c24Tier, st [c24NTx]int) (*c24Inst, error) {
 		}
 	}
 	in.chain.running = true
+	if m.Node.Peer == nil {
+		// no connection, no loop: messages to the other nodes go nowhere
+		m.Node.Peer = p2p.NewPeer(m.Node, m.Node.IdForNetwork, "c24", false)
+	}
 	old := m.Node.SyncPointsMap
 	m.Node.SyncPointsMap = in.spmGood
 	good := m.Node.CheckBroadcastedToPeers() && m.Node.CheckCatchUpWithPeers() && m.Node.GetRemovingOrSlashingNode(m.Node.IdForNetwork) == nil
@@ -395,6 +399,18 @@ func (in *c24Inst) enabled(cfg []c24Agg) []c24Event {
 		// enabled only when n holds a finalized transaction (c24HookFinalizedOK)
 		evs = append(evs, c24Event{kind: "hook-finalized", mask: n})
 	}
+	// a new proposal that is really installed: it takes over at least one
+	// transaction of a proposal that is past the guard (aged a gap or more) but
+	// has not been visited by the expiry pass yet, the rest not in flight
+	aged := owned &^ guarded
+	for o := aged; o != 0; o = (o - 1) & aged {
+		for f := free; ; f = (f - 1) & free {
+			evs = append(evs, c24Event{kind: "announce", mask: o | f})
+			if f == 0 {
+				break
+			}
+		}
+	}
 	// a proposal with at least one transaction the guard protects, the rest not in flight
 	for g := guarded; g != 0; g = (g - 1) & guarded {
 		for f := free; ; f = (f - 1) & free {
@@ -458,6 +474,9 @@ func c24Runs(t *c24Tier, cfg []c24Agg, e c24Event) bool {
 		return true
 	}
 	for k, a := range cfg {
+		if e.kind == "announce" && a.comp == 0 && a.set&e.mask != 0 {
+			continue // the proposal the announcement overlaps: every aged age
+		}
 		if t.oldestNarrow && a.age == t.oldest {
 			return false
 		}
@@ -483,6 +502,16 @@ func c24Runs(t *c24Tier, cfg []c24Agg, e c24Event) bool {
 // c24EventOK: state dependent driver precondition. hook-finalized needs a
 // finalized transaction in the proposal.
 func c24EventOK(e c24Event, st [c24NTx]int) bool {
+	if e.kind == "announce" {
+		// checkActionSanity lets a self proposal through only with all bodies found
+		// and nothing finalized
+		for i := 0; i < c24NTx; i++ {
+			if e.mask&(1<<uint(i)) != 0 && !c24Body(st[i]) {
+				return false
+			}
+		}
+		return true
+	}
 	if e.kind != "hook-finalized" {
 		return true
 	}
@@ -512,6 +541,16 @@ func c24Planned(t *c24Tier, cfg []c24Agg, e c24Event, ref uint8) int64 {
 		}
 		return k
 	}
+	n := c24Pop(e.mask)
+	if e.kind == "announce" {
+		body := 0
+		for _, s := range al {
+			if c24Body(s) {
+				body++
+			}
+		}
+		return pow(len(al), c24Pop(ref)-n) * pow(body, n)
+	}
 	if e.kind != "hook-finalized" {
 		return pow(len(al), c24Pop(ref))
 	}
@@ -521,7 +560,6 @@ func c24Planned(t *c24Tier, cfg []c24Agg, e c24Event, ref uint8) int64 {
 			unfinal++
 		}
 	}
-	n := c24Pop(e.mask)
 	return pow(len(al), c24Pop(ref)-n) * (pow(len(al), n) - pow(unfinal, n))
 }
 
@@ -549,6 +587,7 @@ func (in *c24Inst) apply(cfg []c24Agg, e c24Event, judge bool) (fs []c24Finding,
 	before, _ := in.liveMask()
 	ownedBefore, _, _ := in.ownedNow()
 	var deferred uint8
+	installed := 0
 	name := e.kind
 	var err error
 	p := verifmc.Catch(func() {
@@ -601,6 +640,23 @@ func (in *c24Inst) apply(cfg []c24Agg, e c24Event, judge bool) (fs []c24Finding,
 			s := &common.Snapshot{Version: common.SnapshotVersionCommonEncoding, NodeId: ch.ChainId, Transactions: hs}
 			_, err = ch.cosiHook(&CosiAction{Action: CosiActionSelfEmpty, PeerId: ch.ChainId, Snapshot: s})
 			ch.node.SyncPointsMap = old
+		case "announce":
+			ch.State = in.fakeState(in.now - 1)
+			hs := in.hashes(e.mask)
+			found := map[crypto.Hash]*common.VersionedTransaction{}
+			for _, h := range hs {
+				found[h] = in.txs[in.idx[h]]
+			}
+			self := &CNode{IdForNetwork: ch.ChainId, ConsensusIndex: 0}
+			s := &common.Snapshot{Version: common.SnapshotVersionCommonEncoding, NodeId: ch.ChainId, Timestamp: in.now, Transactions: hs}
+			m := &CosiAction{Action: CosiActionSelfEmpty, PeerId: ch.ChainId, Snapshot: s, data: &CosiChainData{CN: self, PN: self, FoundTxs: found}}
+			err = ch.cosiSendAnnouncement(m)
+			ch.State = in.real
+			if ch.CosiAggregators[s.Hash] != nil {
+				installed = 1
+			} else {
+				deferred = e.mask // neither installed: then it must be back in the queue
+			}
 		case "defer-cutoff", "defer-dup":
 			deferred = e.mask
 			first := in.now - 1
@@ -659,8 +715,8 @@ func (in *c24Inst) apply(cfg []c24Agg, e c24Event, judge bool) (fs []c24Finding,
 	}
 
 	after, nAfter := in.liveMask()
-	if len(ch.CosiAggregators) != nAfter {
-		add("foreign-aggregator", "CosiAggregators holds %d entries, %d of them known", len(ch.CosiAggregators), nAfter)
+	if len(ch.CosiAggregators) != nAfter+installed {
+		add("foreign-aggregator", "CosiAggregators holds %d entries, %d of them known", len(ch.CosiAggregators), nAfter+installed)
 	}
 	var retiredSet uint8
 	nRetired := 0
@@ -736,6 +792,9 @@ func (in *c24Inst) apply(cfg []c24Agg, e c24Event, judge bool) (fs []c24Finding,
 		}
 	}
 	outcome = fmt.Sprintf("%s:retired=%d:queued=%d", e.kind, nRetired, c24Pop(queued))
+	if e.kind == "announce" {
+		outcome += fmt.Sprintf(":installed=%d", installed)
+	}
 	return fs, outcome, queued
 }
 
@@ -845,7 +904,7 @@ next2:
 				continue
 			}
 			hasOldest = true
-			ok := false
+			ok := len(cfg) == 1 // alone: for the announcement that overlaps it
 			for j, b := range cfg {
 				if j != k && a.set&b.set != 0 && b.age == t.canon {
 					ok = true
@@ -888,7 +947,7 @@ type c24Stats struct {
 	resetExcluded, overflowQueued, dupGuarded          atomic.Int64
 	sampled, single, planned                           atomic.Int64
 	orderReps, orderOnly                               atomic.Int64
-	hookQueued, hookFinalQueued                        atomic.Int64
+	hookQueued, hookFinalQueued, announced             atomic.Int64
 
 	fmu      sync.Mutex
 	found    map[string]*c24Report
@@ -898,7 +957,7 @@ type c24Stats struct {
 func TestMC_C24(t *testing.T) {
 	c := verifmc.Start(t, "C24", "exploration")
 	defer c.Finish()
-	c.SetRule("real 7-node fixture node; its own Chain is given every configuration of 0..N local proposals (CosiAggregators + CosiVerifiers as cosiSendAnnouncement installs them) over 4 real deposit transactions: every non-empty transaction set per proposal, every overlap the announcement guard admits (shared transaction only with timestamps >= SnapshotRoundGap apart, the later proposal owning the verifier entry), every age and every commitments/responses class per proposal (classes under expiry and under the reset without owned transactions, one age per non-sharing proposal under events that do not read timestamps; quick: the age 2gap+2 only for an incomplete proposal sharing a transaction with an incomplete one aged gap+1, under expiry; quick: configurations of two proposals use the states {Uc,Un,Fc}, single proposals all four); x every ledger/cache state of every referenced transaction (unreferenced ones are unfinalized with a cache body, the most observable state); x every enabled event: expireCosiAggregators(now), retryCosiSnapshot(P) per proposal, resetCosiStateForNewRound(owned) for every owned subset of one proposal, AppendSelfEmpty on a full CachePool, cosiSendAnnouncement deferred by the round cutoff and by the duplicate guard, cosiHook(self proposal) rejected by checkActionSanity because a transaction of the batch has been finalized meanwhile / the chain is not broadcasted / the node is slow in catching up (thorough adds every sequence of two events, a wider alphabet and three proposals). After each event the raw queue keys are read and the queue is drained with CacheRetrieveTransactions(255). A case is distinct by (part, transaction states, configuration, event sequence)")
+	c.SetRule("real 7-node fixture node; its own Chain is given every configuration of 0..N local proposals (CosiAggregators + CosiVerifiers as cosiSendAnnouncement installs them) over 4 real deposit transactions: every non-empty transaction set per proposal, every overlap the announcement guard admits (shared transaction only with timestamps >= SnapshotRoundGap apart, the later proposal owning the verifier entry), every age and every commitments/responses class per proposal (classes under expiry and under the reset without owned transactions, one age per non-sharing proposal under events that do not read timestamps; quick: the age 2gap+2 only for an incomplete proposal sharing a transaction with an incomplete one aged gap+1, under expiry; quick: configurations of two proposals use the states {Uc,Un,Fc}, single proposals all four); x every ledger/cache state of every referenced transaction (unreferenced ones are unfinalized with a cache body, the most observable state); x every enabled event: expireCosiAggregators(now), retryCosiSnapshot(P) per proposal, resetCosiStateForNewRound(owned) for every owned subset of one proposal, AppendSelfEmpty on a full CachePool, cosiSendAnnouncement deferred by the round cutoff and by the duplicate guard, cosiSendAnnouncement really installing a new proposal that takes over transactions of a proposal aged gap / gap+1 / 2gap+2 which the expiry pass has not visited yet (every transaction of the displaced proposal is then judged), cosiHook(self proposal) rejected by checkActionSanity because a transaction of the batch has been finalized meanwhile / the chain is not broadcasted / the node is slow in catching up (thorough adds every sequence of two events, a wider alphabet and three proposals). After each event the raw queue keys are read and the queue is drained with CacheRetrieveTransactions(255). A case is distinct by (part, transaction states, configuration, event sequence)")
 	c.Assume("CoSi maps are built in-package the way cosiSendAnnouncement builds them (no network round trip); the deferred-announcement events run against a copy of the real cache round that holds one earlier snapshot; transactions handed over by the queue loop (overflow / deferred proposals) are not in flight elsewhere except where the duplicate guard is the subject; one node instance serves all cases of one transaction-state vector: its cache database is compared with the baseline image after every case and replaced by an empty one every 256 cases",
 		"expireCosiAggregators walks the aggregator map in Go's randomized iteration order: an expiry case that retires two or more proposals is executed up to 3 times (thorough 8) with the proposals inserted alternately oldest / youngest first (a small Go map is visited in insertion order with probability 7/8, measured), and failing in some execution is the violation; for such a case the determinism gate is 'reproduces within 16 executions' in each of its 5 re-runs instead of 'reproduces in every execution'")
 	// the kernel clock is moved to the fixture's "now" (3.5 days after the
@@ -974,6 +1033,7 @@ func TestMC_C24(t *testing.T) {
 	c.Set("incomplete_aged_proposals_kept_by_expiry", st.agedKept.Load())
 	c.Set("resets_with_owned_excluded_and_others_requeued", st.resetExcluded.Load())
 	c.Set("overflow_requeues", st.overflowQueued.Load())
+	c.Set("announcements_installed_over_an_aged_unexpired_proposal", st.announced.Load())
 	c.Set("sanity_check_deferrals_with_requeue", st.hookQueued.Load())
 	c.Set("sanity_check_deferrals_for_a_finalized_companion_with_requeue", st.hookFinalQueued.Load())
 	c.Set("duplicate_guard_defers_with_requeue", st.dupGuarded.Load())
@@ -982,6 +1042,7 @@ func TestMC_C24(t *testing.T) {
 		c.Require(st.sharedLive.Load() > 0, "no proposal was retired while a later proposal owned one of its transactions")
 		c.Require(st.orderSensitive.Load() > 0, "no retired proposal listed a finalized transaction before a re-queued one")
 		c.Require(st.completeKept.Load() > 0, "expiry never met a complete aged proposal")
+		c.Require(st.announced.Load() > 0, "no announcement was installed over an aged proposal")
 		c.Require(st.hookFinalQueued.Load() > 0 && st.hookQueued.Load() > st.hookFinalQueued.Load(), "cosiHook deferral paths were not exercised: %d %d", st.hookQueued.Load(), st.hookFinalQueued.Load())
 		c.Require(st.resetExcluded.Load() > 0 && st.overflowQueued.Load() > 0 && st.dupGuarded.Load() > 0, "reset / overflow / duplicate-guard paths were not exercised: %d %d %d", st.resetExcluded.Load(), st.overflowQueued.Load(), st.dupGuarded.Load())
 		c.Require(c.OutcomeCount("expire:retired=1:queued=2") > 0 && c.OutcomeCount("expire:retired=0:queued=0") > 0, "expiry outcomes are vacuous")
@@ -1168,6 +1229,9 @@ func c24RunPart(c *verifmc.Check, tier *c24Tier, stats *c24Stats) bool {
 			}
 			if e.kind == "overflow" && q != 0 {
 				stats.overflowQueued.Add(1)
+			}
+			if e.kind == "announce" && strings.HasSuffix(outcome, "installed=1") {
+				stats.announced.Add(1)
 			}
 			if strings.HasPrefix(e.kind, "hook-") && q != 0 {
 				stats.hookQueued.Add(1)
